@@ -36,16 +36,18 @@ LEVEL_TEXT = (
     "well-formedness assumption) and checkSubst (operands replaced by operands justified equal by the S6 equations: CSE, merged "
     "constants, folded integer constant expressions, and x+0 / 0+x / x*1 at integer types using (3) the typing invariant `every "
     "integer-typed local holds a value in the range of its type` (typing_invariant, from the checked facts tyCheck): "
-    "CommonSubexpressionEliminationPass, RemoveAddZeroPass (integer types), replace_by half of ConstantFolder), and their "
-    "composition. Every real output of those four passes is fed through the checkers on every run. For all 9 passes and api.optimize "
+    "CommonSubexpressionEliminationPass, RemoveAddZeroPass (integer types), replace_by half of ConstantFolder, and the folding "
+    "decision of CJumpPass: a conditional jump on two known integer constants becomes the jump it takes), and their composition. "
+    "Every real output of those passes is fed through the checkers on every run (for CJumpPass: the folded jumps only, not its "
+    "pruning of phi inputs and unreachable blocks). For all 9 passes and api.optimize "
     "at levels 0/1/2/s the property itself is evaluated on the real code: Spec.IR executes every entry function before and after on "
     "argument vectors (corpus, front-end produced, generated and pessimised modules) and compares (return, globals, trace); 7 passes "
     "have Lean models (Model.Opt) that must reproduce the real output up to renaming."
 )
 LEVEL_NOTE = (
     "NOT proved (notes/C02.md): behaviour preservation of RemoveAddZeroPass on pointer/float types (p+0 is NOT p in Spec.IR with "
-    "16-bit pointers; pointer values are not range-checked), the chain rewrite (y+c1)+c2 of ConstantFolder, CJumpPass, "
-    "LoadAfterStorePass, CleanPass, Mem2RegPromotor, "
+    "16-bit pointers; pointer values are not range-checked), the chain rewrite (y+c1)+c2 of ConstantFolder, the pruning step of "
+    "CJumpPass (phi inputs of the not-taken arm, unreachable blocks), LoadAfterStorePass, CleanPass, Mem2RegPromotor, "
     "TailCallOptimization and the level pipelines: for these only the always-on failing-input search runs (absence of a failing input "
     "proves nothing). The validators do not cover removal of unused alloc/literal (memory layout changes), pointer/float constant "
     "folding, indirect-callee replacement. Trusted: Lean kernel; axioms propext/Classical.choice/Quot.sound; Spec.IR (validated "
@@ -58,7 +60,7 @@ TECHNIQUE = ("Lean 4 proof: forward simulation with stuttering over the small-st
              "correspondence model pass vs real pass; always-on before/after execution in the reference semantics")
 RULE = ("inputs: 23 hand-written corpus modules (every known finding, boundary shapes: critical edges, one-input phis, duplicate operand "
         "slots, aliasing stores, memcpy between store and load, constant comparisons at the boundary, signed/unsigned constant "
-        "arithmetic, signed zeros, tail calls, promotable slots in loops), 8 C front-end modules, G-IR generated modules (6 quick / 60 "
+        "arithmetic, signed zeros, tail calls, promotable slots in loops), 8 C front-end modules, G-IR generated modules (6 quick / 32 "
         "thorough) of which 2/3 are pessimised (x+0, x*1, constant expressions with boundary operands whose value is subtracted again, "
         "constant conditional jumps with a dead arm sharing the successor, values and phis demoted to stack slots); pipelines: each of "
         "the 9 passes alone and api.optimize at 0/1/2/s; 2-3 argument vectors per entry (boundary biased). distinct = distinct "
@@ -82,7 +84,8 @@ MODELLED = ["addzero", "constfold", "cse", "cjump", "delunused", "las", "clean"]
 SINGLE = MODELLED + ["mem2reg", "tailcall"]
 LEVELS = ["O0", "O1", "O2", "Os"]
 # pass -> Lean-verified validator that every real output of the pass goes through (Model.OptCheck)
-VALIDATED = {"delunused": ["align"], "cse": ["subst"], "addzero": ["subst"], "constfold": ["align", "subst"]}
+VALIDATED = {"delunused": ["align"], "cse": ["subst"], "addzero": ["subst"], "constfold": ["align", "subst"],
+             "cjump": ["subst"]}     # cjump: only the folding decision (before -> before with the folded jumps)
 
 
 def pass_object(name):
@@ -388,7 +391,10 @@ def process(ctx, tag, text, only, fixed, pipelines):
             lines.append("pass " + p)
         if after is not None and p in VALIDATED:
             stages = VALIDATED[p]
-            mids = [after] if len(stages) == 1 else [mid_module(text, after), after]
+            if p == "cjump":
+                mids = [fold_module(text, after)]
+            else:
+                mids = [after] if len(stages) == 1 else [mid_module(text, after), after]
             v["check_at"] = []
             lines.append("load " + text)
             for kind, mtext in zip(stages, mids):
@@ -492,6 +498,19 @@ def mid_module(before, after):
     return T.show(tb)
 
 
+def fold_module(before, after):
+    """`before` with the conditional jumps that `after` has folded replaced by the jump taken; everything else
+    (phi inputs, unreachable blocks) as in `before`: the part of CJumpPass that the validator covers"""
+    tb, ta = T.parse(before), T.parse(after)
+    for fb, fa in zip(T.funcs_of(tb), T.funcs_of(ta)):
+        aft = {b[1]: b for b in T.blocks_of(fa)}
+        for bb in T.blocks_of(fb):
+            ba = aft.get(bb[1])
+            if ba is not None and len(bb) > 2 and len(ba) > 2 and bb[-1][0] == "cjump" and ba[-1][0] == "jump":
+                bb[-1] = ba[-1]
+    return T.show(tb)
+
+
 def outside_validator_class(p, before, after):
     """rewrites the validator of pass `p` does not claim to cover (stated in LEVEL_NOTE)"""
     if p == "delunused":
@@ -522,6 +541,20 @@ def outside_validator_class(p, before, after):
                             da = defs.get(a[1:]) if a.startswith("%") else None
                             isc = lambda q: q is not None and q[2] is not None and q[2][0] == "const"
                             x = b if (isc(da) and d[2][3] == "add" and da[2][3] == "0") else a
+        return False
+    if p == "cjump":
+        # not covered: comparisons of float / pointer constants (the rule `cjFold` knows integers only)
+        tb, ta = T.parse(before), T.parse(after)
+        for fb, fa in zip(T.funcs_of(tb), T.funcs_of(ta)):
+            defs = T.def_table(fb)
+            aft = {b[1]: b for b in T.blocks_of(fa)}
+            for bb in T.blocks_of(fb):
+                ba = aft.get(bb[1])
+                if ba is not None and len(bb) > 2 and len(ba) > 2 and bb[-1][0] == "cjump" and ba[-1][0] == "jump":
+                    for o in (bb[-1][1], bb[-1][3]):
+                        d = defs.get(o[1:]) if o.startswith("%") else None
+                        if d is None or d[2] is None or d[2][0] != "const" or d[2][2] not in T.INT_TYPES:
+                            return True
         return False
     if p == "constfold":
         # not covered by `checkSubst`: the chain rewrite (y+c1)+c2 -> y+c3 (an operand becomes a value that
@@ -585,7 +618,7 @@ def check(ctx):
     some = every if ctx.thorough else SINGLE + ["O2"]
     inputs = [(f"corpus:{n}", t, None, fx, every) for n, t, fx in CORPUS]
     inputs += [(tag, text, only, None, some) for tag, text, only in c_texts()]
-    ngen = 60 if ctx.thorough else 6
+    ngen = 32 if ctx.thorough else 6
     inputs += [(tag, text, None, None, some) for tag, text, _ in gen_texts(ctx, ngen)]
     scripts = []
     for tag, text, only, fixed, pipelines in inputs:
